@@ -33,7 +33,7 @@ define ENGINE
 $(B)/obj/$(2)/$(1).o: sim/$(1).cpp $(SIM_HDRS) $(B)/gen/sodium/version.h
 	@mkdir -p $$(dir $$@)
 	@echo "  CXX  $$@"
-	@$$(CXX_$(3)) $$(CXXFLAGS_$(3)) $(CXXSTD) $(ENGINE_INC) -c $$< -o $$@
+	@$$(CXX_$(3)) $$(CXXFLAGS_$(3)) $(CXXSTD) $(ENGINE_INC) $$(EDEFS_$(1)_$(2)) -c $$< -o $$@
 $(B)/bin/$(1)_$(2): $(B)/obj/$(2)/$(1).o $(B)/obj/$(3)/simos.o $$(OBJS_$(2))
 	@mkdir -p $$(dir $$@)
 	@echo "  LINK $$@"
@@ -49,3 +49,18 @@ $(eval $(call ENGINE,c09_stream,plain,plain))
 
 .PHONY: c09
 c09: $(B)/bin/c09_stream_asan $(B)/bin/c09_stream_plain
+
+EDEFS_c20_oom_plain := -DC20_VARIANT='"mmap"'
+EDEFS_c20_oom_asan := -DC20_VARIANT='"mmap"'
+EDEFS_c20_oom_plain_pma := -DC20_VARIANT='"posix_memalign"'
+EDEFS_c20_oom_asan_pma := -DC20_VARIANT='"posix_memalign"'
+EDEFS_c20_oom_plain_malloc := -DC20_VARIANT='"malloc"'
+EDEFS_c20_oom_asan_malloc := -DC20_VARIANT='"malloc"'
+$(eval $(call ENGINE,c20_oom,plain,plain))
+$(eval $(call ENGINE,c20_oom,asan,asan))
+$(eval $(call ENGINE,c20_oom,plain_pma,plain))
+$(eval $(call ENGINE,c20_oom,asan_pma,asan))
+$(eval $(call ENGINE,c20_oom,plain_malloc,plain))
+$(eval $(call ENGINE,c20_oom,asan_malloc,asan))
+.PHONY: c20
+c20: $(foreach v,plain asan plain_pma asan_pma plain_malloc asan_malloc,$(B)/bin/c20_oom_$(v))
